@@ -2,8 +2,8 @@ package c05
 
 import (
 	"bytes"
-	stdjson "encoding/json"
 	"encoding/hex"
+	stdjson "encoding/json"
 	"fmt"
 	"io"
 	"os"
@@ -15,7 +15,9 @@ import (
 	gojson "github.com/goccy/go-json"
 	"pgregory.net/rapid"
 
+	_ "verif/harness/dec"
 	"verif/harness/jsongen"
+	"verif/harness/known"
 	"verif/harness/ref"
 	"verif/harness/rt"
 )
@@ -536,32 +538,26 @@ func TestWitness(t *testing.T) {
 		in    string
 	}
 	ws := map[string]w{
-		"KF-C05-lenient-number":           {"unmarshal", "01"},
-		"KF-C05-raw-control-in-string":    {"unmarshal", "\"\x01\""},
-		"KF-C05-stream-nul-ends-input":    {"valid", "1\x00x"},
-		"KF-C05-stream-bad-escape":        {"valid", `"\uZZZZ"`},
-		"KF-C05-stream-separator-skipped": {"valid", ",0"},
-		"KF-C05-valid-closer-ends-check":  {"valid", "0]x"},
-		"KF-C05-valid-float-range":        {"valid-rejects", "1e999"},
-		"FX-C05-nul-terminates":           {"unmarshal", "1\x00x"},
-		"FX-C05-stream-literal-eof":       {"valid", "tru"},
+		"KF-C05-lenient-number":          {"unmarshal", "01"},
+		"KF-C05-raw-control-in-string":   {"unmarshal", "\"\x01\""},
+		"KF-C05-stream-bad-escape":       {"valid", `"` + "\\" + `uZZZZ"`},
+		"KF-C05-valid-closer-ends-check": {"valid", "0]x"},
+		"FX-C05-nul-terminates":          {"unmarshal", "1\x00x"},
+		"FX-C05-stream-literal-eof":      {"valid", "tru"},
 	}
-	x, ok := ws[rt.E.Witness]
-	if !ok {
-		t.Fatalf("unknown witness %q", rt.E.Witness)
+	for id, x := range ws {
+		x := x
+		known.Witnesses[id] = func() (bool, string) {
+			in := []byte(x.in)
+			if x.entry == "unmarshal" {
+				v := goUnmarshal(in)
+				return v.ok && !stdUnmarshal(in), fmt.Sprintf("Unmarshal(%q) accepted=%v", in, v.ok)
+			}
+			v := goValid(in)
+			return v.ok && !ref.Valid(in), fmt.Sprintf("Valid(%q)=%v", in, v.ok)
+		}
 	}
-	in := []byte(x.in)
-	switch x.entry {
-	case "unmarshal":
-		v := goUnmarshal(in)
-		rt.WitnessResult(v.ok && !stdUnmarshal(in), fmt.Sprintf("Unmarshal(%q) accepted=%v", in, v.ok))
-	case "valid":
-		v := goValid(in)
-		rt.WitnessResult(v.ok && !ref.Valid(in), fmt.Sprintf("Valid(%q)=%v", in, v.ok))
-	case "valid-rejects":
-		v := goValid(in)
-		rt.WitnessResult(!v.ok && ref.Valid(in), fmt.Sprintf("Valid(%q)=%v", in, v.ok))
-	}
+	known.RunWitness()
 }
 
 func TestReplay(t *testing.T) {
